@@ -342,14 +342,18 @@ def run_ex_rules(ctx, prog, rule="C16.G5"):
             continue
         seen.add(key)
         names = [x if isinstance(x, str) else x[0] for x in seq]
-        order_ok = names[:1] == ["new"] and names[-1:] == ["destroy"] and names.count("destroy") == 1 and \
-            [x for x in names if x not in ("new", "destroy")] == ["start", "drain", "stop"][:len(names) - 2]
+        created = "new" in [x for x in seq if isinstance(x, str)]
+        mids = [x for x in names if x not in ("new", "destroy")]
+        order_ok = names[:1] == ["new"] and mids == ["start", "drain", "stop"][:len(mids)] and names.count("destroy") <= 1 and \
+            ((names[-1:] == ["destroy"]) if created else True)
         first_neg = s.mon.get("first_neg")
         stops_at_error = all(not (isinstance(x, tuple) and x[1] == "neg") or i == len(seq) - 2 for i, x in enumerate(seq))
         handle_ok = all(a == fs(tok) for a in s.mon.get("arg0", ()))
         if first_neg == "new":
-            stops_at_error = len(seq) == 2
+            stops_at_error = len(mids) == 0
         freed = s.res.get(tok, ("freed",)) == ("freed",)
+        stops_at_error = stops_at_error if first_neg == "new" else all(
+            not (isinstance(x, tuple) and x[1] == "neg") or [y for y in seq[i + 1:] if y != "destroy"] == [] for i, x in enumerate(seq))
         if first_neg:
             ret_ok = all_neg(rv)
         elif "new" in names and len(names) == 2 and s.mon.get("failed"):
